@@ -534,7 +534,7 @@ class StokesLandscape(Landscape):
             int32, unless the landscape largest index would overflow, in which case it is int64.
         """
         dtype: DTypeLike
-        if len(self) - 1 <= np.iinfo(np.iinfo(np.int32)).max:
+        if len(self) <= np.iinfo(np.int32).max:
             dtype = np.int32
         else:
             dtype = np.int64
